@@ -78,6 +78,14 @@ CHECKS["C08"] = dict(
     note="Non-termination is judged by a 15 s bound per call; stack overflow by process death (re-run one script per process). Expressions <= 400 nodes / depth <= 60 on an 8 MiB stack. The model's prediction of which calls err is refinement level only.",
 )
 
+CHECKS["C20"] = dict(
+    category="model_checking",
+    technique="TLA+ model of routing as save/override/search/restore (Route.tla) model-checked by TLC, early-return deviation refuted; highlight/position/routing queries for every id and cell of suite expressions x codes x highlight styles recorded with preference and navigation read-back after every query; judged by TLC (Trace_Route.tla)",
+    text="Design: PrefRestored holds on every exit of the search in the intended model and is refuted for the pinned commit's early return. Implementation: per (expression, code, style) get_braille for every id and for unknown/stale ids, get_braille_position and get_navigation_node_from_braille_position for every cell (sampled beyond 40) and past the end at several navigation positions; TLC checks success for ids/cells of the expression, bounds, id membership, equality with the unhighlighted braille for Off/unknown ids, and purity (preference, navigation position, later braille and speech). Expressions are sampled from the suite.",
+    design_ref="DESIGN.md section 5 C20",
+    note="'highlighted = plain + dots 7-8' is not demanded. Position bound = plain braille length + 8 cells. One known finding (non-3-byte characters in Swedish braille) is listed in known_findings.json.",
+)
+
 NOT_YET = {}
 
 
